@@ -2,6 +2,7 @@ use std::env;
 use std::path::PathBuf;
 
 fn main() {
+    println!("cargo::rustc-check-cfg=cfg(wowrs_verif)");
     println!("cargo:warning=Running build script for storm crate");
 
     let crate_dir = env::var("CARGO_MANIFEST_DIR").unwrap();
